@@ -1,6 +1,6 @@
 """Unit `monitors`: Latch (C10), Barrier (C09), TriggerVariable (C11) — Scheme M
 (monitor invariant + wake-up discipline, DESIGN.md section 4)."""
-from _common import GHOST_BOUNDS, GHOST_ASSIGNS
+from _common import GHOST_BOUNDS, GHOST_ASSIGNS, CNT_OK
 
 UNIT = dict(
     name='monitors',
@@ -87,17 +87,37 @@ void vf_barrier_releasing(void)
 /* ================= TriggerVariable ================= */
 struct TriggerVariable *vf_T;
 _Bool gt_dirty_trig, gt_dirty_act;  /* predicate became true, notify_all still owed */
-int gt_epoch;                       /* ghost: activation epoch (bumped when `triggered` is cleared) */
-int gt_trig_epoch;                  /* ghost: epoch of the last observed/performed trigger */
 _Bool gt_wrote_trig, gt_wrote_act;  /* ghost: the verified call wrote the variable */
-int gt_order;                       /* ghost: 0 nothing, 1 triggered cleared, 2 activated set after clear */
-#define T_IDLE (!vf_T->triggerLock.excl_me && !vf_T->activeLock.excl_me && vf_held == 0 && !gt_dirty_trig && !gt_dirty_act)
+_Bool gt_set_trig;                  /* ghost: the verified call set `triggered` (under triggerLock) */
+int gt_order;                       /* ghost: 0 nothing, 1 `triggered` cleared, 2 `activated` set after the clear, 3 set without clear */
+_Bool gt_saw_active;                /* ghost: a load of `activated` returned true */
+_Bool gt_saw_act_locked;            /* ... while holding activeLock */
+_Bool gt_saw_trig_any;              /* ghost: a load of `triggered` returned true */
+_Bool gt_saw_trig_locked;           /* ... while holding triggerLock */
+_Bool gt_last_trig_locked_valid, gt_last_trig_locked; /* last value of `triggered` read under triggerLock */
+_Bool gt_last_act_locked_valid, gt_last_act_locked;   /* last value of `activated` read under activeLock */
+_Bool gt_deactivated;               /* ghost: the verified call stored false to `activated` */
+#define T_IDLE (!vf_T->triggerLock.excl_me && !vf_T->activeLock.excl_me && vf_T->triggerLock.shared_me == 0 && \
+                vf_T->activeLock.shared_me == 0 && vf_held == 0 && !gt_dirty_trig && !gt_dirty_act)
+#define T_FRESH (!gt_wrote_trig && !gt_wrote_act && !gt_set_trig && gt_order == 0 && !gt_saw_active && !gt_saw_act_locked && \
+                 !gt_saw_trig_any && !gt_saw_trig_locked && !gt_last_trig_locked_valid && !gt_last_act_locked_valid && !gt_deactivated)
 void vf_trig_env(void)
 {
   /* rely: other threads write `triggered` only under triggerLock and `activated` only under
-     activeLock (that is obligation M3 on every function of this class) */
-  if (!vf_T->triggerLock.excl_me) { _Bool n = vf_nondet_bool(); if (n != vf_T->triggered.v) { if (!n) gt_epoch = (gt_epoch < VF_BIG ? gt_epoch + 1 : gt_epoch); vf_T->triggered.v = n; } }
+     activeLock (obligation M3 on every function of this class) */
+  if (!vf_T->triggerLock.excl_me) vf_T->triggered.v = vf_nondet_bool();
   if (!vf_T->activeLock.excl_me) vf_T->activated.v = vf_nondet_bool();
+}
+void vf_trig_read(void *a, long val)
+{
+  if (a == (void *)&vf_T->activated) {
+    if (val) gt_saw_active = 1;
+    if (vf_T->activeLock.excl_me) { gt_last_act_locked_valid = 1; gt_last_act_locked = val != 0; if (val) gt_saw_act_locked = 1; }
+  }
+  if (a == (void *)&vf_T->triggered) {
+    if (val) gt_saw_trig_any = 1;
+    if (vf_T->triggerLock.excl_me) { gt_last_trig_locked_valid = 1; gt_last_trig_locked = val != 0; if (val) gt_saw_trig_locked = 1; }
+  }
 }
 
 /* ================= hooks ================= */
@@ -137,13 +157,19 @@ void vf_hook_atomic_write(void *a, long o, long n)
   if (vf_T && a == (void *)&vf_T->triggered) {
     __CPROVER_assert(vf_T->triggerLock.excl_me, "[M3] TriggerVariable: `triggered` modified without holding triggerLock");
     gt_wrote_trig = 1;
-    if (!o && n) { gt_dirty_trig = 1; gt_trig_epoch = gt_epoch; }
-    if (!n) { if (gt_epoch < VF_BIG) gt_epoch = gt_epoch + 1; if (gt_order == 0) gt_order = 1; }
+    if (n) gt_set_trig = 1;
+    if (!o && n) gt_dirty_trig = 1;
+    if (!n && gt_order == 0) gt_order = 1;
   }
   if (vf_T && a == (void *)&vf_T->activated) {
     __CPROVER_assert(vf_T->activeLock.excl_me, "[M3] TriggerVariable: `activated` modified without holding activeLock");
     gt_wrote_act = 1;
-    if (!o && n) { gt_dirty_act = 1; if (gt_order == 1) gt_order = 2; else gt_order = 3; }
+    if (!o && n) gt_dirty_act = 1;
+    if (n) gt_order = (gt_order == 1) ? 2 : 3;
+    if (!n) {
+      __CPROVER_assert(gt_saw_trig_any, "[C11] TriggerVariable: deactivated without a trigger having been observed first (reset must force a trigger)");
+      gt_deactivated = 1;
+    }
   }
 }
 void vf_hook_notify(struct vf_cv *c, int all)
@@ -165,8 +191,8 @@ void vf_hook_cv_wait(struct vf_cv *c, struct vf_lock *l)
   if (vf_T) {
     __CPROVER_assert((c == &vf_T->cv_trigger && l->m == &vf_T->triggerLock) || (c == &vf_T->cv_active && l->m == &vf_T->activeLock),
                      "[M5] TriggerVariable: condition variable waited on with the mutex of the other predicate");
-    if (c == &vf_T->cv_trigger) __CPROVER_assert(!vf_T->triggered.v, "[C11] TriggerVariable: blocks on cv_trigger although `triggered` is set");
-    if (c == &vf_T->cv_active) __CPROVER_assert(!vf_T->activated.v, "[C11] TriggerVariable: blocks on cv_active although `activated` is set");
+    if (c == &vf_T->cv_trigger) __CPROVER_assert(!vf_T->triggered.v, "[C11] TriggerVariable: blocks on cv_trigger although `triggered` is set (missed event)");
+    if (c == &vf_T->cv_active) __CPROVER_assert(!vf_T->activated.v, "[C11] TriggerVariable: blocks on cv_active although `activated` is set (missed event)");
   }
 }
 #define VF_HOOK_ACQUIRED(m, s) vf_hook_acquired(m)
@@ -174,6 +200,7 @@ void vf_hook_cv_wait(struct vf_cv *c, struct vf_lock *l)
 #define VF_HOOK_ATOMIC_PRE(a) vf_hook_atomic_pre(a)
 #define VF_HOOK_ATOMIC_WRITE(a, o, n, mo, rmw) vf_hook_atomic_write(a, o, n)
 #define VF_HOOK_NOTIFY(c, all) vf_hook_notify(c, all)
+#define VF_HOOK_ATOMIC_READ(a, val, mo) do { if (vf_T) vf_trig_read(a, val); } while (0)
 #define VF_HOOK_CV_WAIT(c, l) vf_hook_cv_wait(c, l)
 ''')
 
@@ -184,6 +211,22 @@ TAGMAP = {
 
 LATCH_G = 'g_arr, g_my_arr, g_dirty, ' + GHOST_ASSIGNS
 LATCH_SETUP = 'vf_L = self; vf_B = 0; vf_T = 0;'
+T_G = 'gt_dirty_trig, gt_dirty_act, gt_wrote_trig, gt_wrote_act, gt_set_trig, gt_order, gt_saw_active, gt_saw_act_locked, gt_saw_trig_any, gt_saw_trig_locked, gt_last_trig_locked_valid, gt_last_trig_locked, gt_last_act_locked_valid, gt_last_act_locked, gt_deactivated, ' + GHOST_ASSIGNS
+T_SETUP = 'vf_T = self; vf_L = 0; vf_B = 0;'
+T_REQ = 'vf_T == self && vf_L == 0 && vf_B == 0 && T_IDLE && T_FRESH && !vf_exc'
+T_CNT = CNT_OK
+
+
+def T_LOOP(lk, mtx):
+    other = 'activeLock' if mtx == 'triggerLock' else 'triggerLock'
+    return ('%s.owns && %s.m == &self->%s && self->%s.excl_me && !self->%s.excl_me && vf_held == 1 && !vf_exc && '
+            '!gt_dirty_trig && !gt_dirty_act && !gt_wrote_trig && !gt_wrote_act && ' % (lk, lk, mtx, mtx, other)) + T_CNT
+
+
+def T_LOOP_ASSIGNS(mtx):
+    return ('self->triggered.v, self->activated.v, self->%s.excl_me, gt_saw_active, gt_saw_act_locked, gt_saw_trig_any, gt_saw_trig_locked, '
+            'gt_last_trig_locked_valid, gt_last_trig_locked, gt_last_act_locked_valid, gt_last_act_locked, vf_n_block, vf_n_cvwait, vf_n_mutex_ops, vf_n_timed' % mtx)
+
 
 FN = {
     r'Latch::arrive': dict(
@@ -237,6 +280,68 @@ FN = {
                                ' (gb_my_arr == 1 && gb_arrival_gen == lGen && B_FIELDS_EQ(gb_acq_c, gb_acq_g, gb_acq_t) && gb_acq_g >= lGen && B_INV && !gb_notified))',
                         'predicate loop: either my arrival is still inside its critical section, or it has been released and only the environment moved since')],
             assigns='self->count_, self->generation_, self->threshold_, self->mtx.excl_me, gb_snap_c, gb_snap_g, gb_snap_t, gb_acq_c, gb_acq_g, gb_acq_t, gb_my_arr, gb_arrival_gen, gb_notified, gb_notified_g, vf_n_block, vf_n_cvwait, vf_n_mutex_ops')}),
+
+    # ---------------------------------------------------------------- TriggerVariable (C11)
+    r'TriggerVariable::trigger': dict(
+        props='C11', setup=T_SETUP,
+        # no T_FRESH: trigger() is also called from reset(), so its contract is relative to the entry state
+        requires=['vf_T == self && vf_L == 0 && vf_B == 0 && T_IDLE && !vf_exc && ' + CNT_OK],
+        ensures=[('C11', 'T_IDLE && !vf_exc', 'both mutexes released, no notify owed'),
+                 ('C11', '__CPROVER_return_value ==> (gt_set_trig && gt_saw_active)', 'true: it saw the variable active and set `triggered` (under triggerLock, notify_all before unlock: model assertions M3/M4)'),
+                 ('C11', '!__CPROVER_return_value ==> (gt_wrote_trig == __CPROVER_old(gt_wrote_trig) && gt_set_trig == __CPROVER_old(gt_set_trig))', 'false: inactive, nothing written'),
+                 ('C11', '__CPROVER_old(gt_saw_active) ==> gt_saw_active', 'ghost flags are sticky'),
+                 ('', CNT_OK, 'ghost counters stay in range')],
+        # frame: trigger never touches `activated`, its lock, or the ghost state of the activation monitor
+        assigns='*self, gt_dirty_trig, gt_wrote_trig, gt_set_trig, gt_saw_active, ' + GHOST_ASSIGNS),
+    r'TriggerVariable::activate': dict(
+        props='C11', setup=T_SETUP, requires=[T_REQ],
+        ensures=[('C11', 'T_IDLE && !vf_exc', 'both mutexes released, no notify owed'),
+                 ('C11', '__CPROVER_return_value ==> gt_order == 2', 'true: `triggered` cleared (under triggerLock) before `activated` is set (under activeLock)'),
+                 ('C11', '!__CPROVER_return_value ==> (!gt_wrote_trig && !gt_wrote_act && gt_saw_active)', 'false: was already active, no effect'),
+                 ('C11', '!gt_set_trig && !gt_deactivated', 'activate never sets `triggered` nor deactivates')],
+        assigns='*self, ' + T_G),
+    r'TriggerVariable::(isTriggered|isActive)': dict(
+        props='C11', no_replace=True, setup=T_SETUP, requires=[T_REQ],
+        ensures=[('C11', 'T_IDLE && !vf_exc && !gt_wrote_trig && !gt_wrote_act && vf_n_mutex_ops == __CPROVER_old(vf_n_mutex_ops)', 'pure observer')],
+        assigns='*self, ' + T_G),
+    r'TriggerVariable::wait': dict(
+        props='C11', setup=T_SETUP, requires=[T_REQ],
+        ensures=[('C11', 'T_IDLE && !vf_exc && !gt_wrote_trig && !gt_wrote_act', 'mutex released; a wait writes nothing'),
+                 ('C11', 'gt_saw_active ==> gt_saw_trig_locked', 'on an activated variable wait returns only after observing `triggered` under triggerLock'),
+                 ('C11', '__CPROVER_return_value', 'returns true')],
+        assigns='*self, ' + T_G,
+        loops={0: dict(invariant=[('C11', T_LOOP('lk', 'triggerLock'), 'predicate loop under triggerLock')], assigns=T_LOOP_ASSIGNS('triggerLock'))}),
+    r'TriggerVariable::wait_for': dict(
+        props='C11', setup=T_SETUP, requires=[T_REQ],
+        ensures=[('C11', 'T_IDLE && !vf_exc && !gt_wrote_trig && !gt_wrote_act', 'mutex released; a wait writes nothing'),
+                 ('C11', '(__CPROVER_return_value && gt_saw_active) ==> gt_saw_trig_locked', 'true on an activated variable only after observing `triggered` under triggerLock'),
+                 ('C11', '!__CPROVER_return_value ==> (gt_last_trig_locked_valid && !gt_last_trig_locked)', 'false only if `triggered` was false at the locked evaluation that ended the wait')],
+        assigns='*self, ' + T_G,
+        loops={0: dict(invariant=[('C11', T_LOOP('lk', 'triggerLock'), 'predicate loop under triggerLock')], assigns=T_LOOP_ASSIGNS('triggerLock'))}),
+    r'TriggerVariable::waitActivation': dict(
+        props='C11', setup=T_SETUP, requires=[T_REQ],
+        ensures=[('C11', 'T_IDLE && !vf_exc && !gt_wrote_trig && !gt_wrote_act', 'mutex released; a wait writes nothing'),
+                 ('C11', 'gt_saw_act_locked', 'returns only after observing `activated` under activeLock')],
+        assigns='*self, ' + T_G,
+        loops={0: dict(invariant=[('C11', T_LOOP('lk', 'activeLock'), 'predicate loop under activeLock')], assigns=T_LOOP_ASSIGNS('activeLock'))}),
+    r'TriggerVariable::wait_forActivation': dict(
+        props='C11', setup=T_SETUP, requires=[T_REQ],
+        ensures=[('C11', 'T_IDLE && !vf_exc && !gt_wrote_trig && !gt_wrote_act', 'mutex released; a wait writes nothing'),
+                 ('C11', '__CPROVER_return_value ==> gt_saw_act_locked', 'true only after observing `activated` under activeLock'),
+                 ('C11', '!__CPROVER_return_value ==> (gt_last_act_locked_valid && !gt_last_act_locked)', 'false only if not activated at the locked evaluation that ended the wait')],
+        assigns='*self, ' + T_G,
+        loops={0: dict(invariant=[('C11', T_LOOP('lk', 'activeLock'), 'predicate loop under activeLock')], assigns=T_LOOP_ASSIGNS('activeLock'))}),
+    r'TriggerVariable::reset': dict(
+        props='C11', setup=T_SETUP, requires=[T_REQ],
+        ensures=[('C11', 'T_IDLE && !vf_exc', 'both mutexes released, never nested (model assertion L5), no notify owed'),
+                 ('C11', '!self->activated.v && gt_last_act_locked_valid', 'after reset the variable is inactive (as of the release of activeLock)'),
+                 ('C11', 'gt_deactivated ==> gt_saw_trig_any', 'an active variable is deactivated only after a trigger was observed (forced through trigger())'),
+                 ('C11', 'gt_order == 0', 'reset never activates')],
+        assigns='*self, ' + T_G,
+        loops={0: dict(invariant=[('C11', 'lk.owns && lk.m == &self->activeLock && self->activeLock.excl_me && !self->triggerLock.excl_me && self->triggerLock.shared_me == 0 && self->activeLock.shared_me == 0 && '
+                                          'vf_held == 1 && !vf_exc && !gt_dirty_trig && !gt_dirty_act && !gt_wrote_act && gt_order == 0 && !gt_deactivated && gt_last_act_locked_valid && ' + T_CNT,
+                                   'force-trigger loop: activeLock held at the loop head, triggerLock never held together with it')],
+                       assigns='*self, lk.owns, ' + T_G)}),
 }
 
 _b = FN.pop(r'Barrier::(wait|wait_and_drop)')
